@@ -21,9 +21,9 @@ CLAIMED = {
             "Theorems C10_terminates_complete_consecutive / C10_remainder_short / C10_item_length_field hold for every byte string, every sequence of read results and every source kind: the loop ends without running out of fuel |input|+1, each item has the length its header declares, items are consecutive slices, and the remainder is shorter than one complete packet. The property determines the output uniquely, so model = implementation on a case is the property on that case.",
             "Trusted: Coq kernel+VM; reader contract; a socket that neither sends nor closes blocks by design. Genuine defect F1/F2 found by this check and repaired by a fix: commit (known_findings.json).",
             "DESIGN.md section 4 C10, 8.3"),
-    "C13": ("Coq proof (header word = disjoint lor = sum; accessors via the C03 window lemma; bit layout; rejection; re-framing by the C02 theorem) + kernel-evaluated correspondence with create_ccsds_packet/header_values/ccsds_generator",
+    "C13": ("Coq proof (header word = disjoint lor = sum; accessors via the C03 window lemma; bit layout; rejection; re-framing by the C02 theorem) + translator: the whole of create_ccsds_packet regenerated into Gallina from the current source and proved equal to the model's create_packet (all integer fields, all byte strings, exceptions included) on every run + kernel-evaluated correspondence with create_ccsds_packet/header_values/ccsds_generator",
             "Theorems C13_constructs, C13_layout, C13_accessors_inverse, C13_reframe, C13_accessors_of_any_packet, C13_rejects hold for all field values and all data of 1..65536 bytes.",
-            "Trusted: Coq kernel+VM; correspondence sampling (each field over its range, boundary products, extreme lengths; thorough: all 2^16 values of both header words).",
+            "Trusted: Coq kernel+VM; the translator harness/gen_fun.py with the Python operation semantics of Base/PyEval.v; correspondence sampling (each field over its range, boundary products, extreme lengths; thorough: all 2^16 values of both header words).",
             "DESIGN.md section 4 C13, 8.5"),
     "C12": ("Coq proof by invariant over histories (pointwise map invariant: open groups disjoint, emitted set duplicate-free) + per-APID projection + refinement to an Idle/Open automaton + kernel-evaluated correspondence through packet_generator(combine_segmented_packets=True)",
             "Theorems C12_at_most_once, C12_per_apid_independent, C12_group_semantics, C12_only_complete hold for every finite history over any APIDs. The automaton determines outputs and warnings uniquely, so model = implementation on a history is the property on that history.",
